@@ -495,6 +495,7 @@ Choices random_choices(sim::Rng& r) {
     c.denorm_depth = r.chance(0.5) ? 1 : (int)r.range(2, 13);
     c.zero_style = r.chance(0.7) ? 0 : (int)r.range(1, 3);
     c.abs_bits = r.chance(0.92) ? 0 : 2 * (int)r.range(1, 3);
+    c.nodes = r.chance(0.08);
     return c;
 }
 
@@ -509,6 +510,7 @@ J to_json(const Choices& c) {
     j.set("denorm_depth", (int64_t)c.denorm_depth);
     j.set("zero_style", (int64_t)c.zero_style);
     j.set("abs_bits", (int64_t)c.abs_bits);
+    j.set("nodes", c.nodes);
     j.set("pad_after_endlib", c.pad_after_endlib);
     j.set("xy_split", c.xy_split);
     j.set("text_path_records", c.text_path_records);
@@ -533,6 +535,7 @@ Choices choices_from(const J& j) {
     c.denorm_depth = j.has("denorm_depth") ? (int)j.geti("denorm_depth") : 1;
     c.zero_style = j.has("zero_style") ? (int)j.geti("zero_style") : 0;
     c.abs_bits = (int)j.geti("abs_bits", 0);
+    c.nodes = j.getb("nodes");
     c.pad_after_endlib = j.getb("pad_after_endlib");
     c.xy_split = (int)j.geti("xy_split");
     c.text_path_records = j.getb("text_path_records");
@@ -613,6 +616,27 @@ std::vector<uint8_t> encode(const model::MLib& m, const Choices& c, bool* expect
         }
         ci++;
         e.rec_str(STRNAME, cell.name);
+        // a NODE element (electrical net): LAYER NODETYPE XY(1 to 50 points), properties allowed
+        auto put_node = [&](int k) {
+            if (!c.nodes) return;
+            unsupported = true;
+            e.rec0(NODE);
+            put_elflags();
+            e.rec_i16(LAYER, {(uint16_t)((ci + (size_t)k) % 64)});
+            e.rec_i16(NODETYPE, {(uint16_t)(k + 1)});
+            std::vector<int32_t> co;
+            for (int i = 0; i <= k; i++) {
+                co.push_back((int32_t)(100 * (int)ci + 7 * i));
+                co.push_back((int32_t)(-50 * (int)ci + 11 * i));
+            }
+            e.rec_i32(XY, co);
+            if (k == 1) {
+                e.rec_i16(PROPATTR, {(uint16_t)(10 + ci % 100)});
+                e.rec_str(PROPVALUE, "net" + std::to_string(ci));
+            }
+            e.rec0(ENDEL);
+        };
+        put_node(0);
         for (auto& p : cell.polys) {
             bool box = c.box_for_rect && is_axis_rect(p.pts);
             e.rec0(box ? BOX : BOUNDARY);
@@ -660,6 +684,7 @@ std::vector<uint8_t> encode(const model::MLib& m, const Choices& c, bool* expect
             put_props(p.props);
             e.rec0(ENDEL);
         }
+        put_node(1);
         for (auto& l : cell.labels) {
             e.rec0(TEXT);
             put_elflags();
